@@ -7,6 +7,8 @@ ROOT="$(cd "$(dirname "$0")/.." && pwd)"
 OUT="$ROOT/.build/ocaml/$ID"
 EX="$ROOT/coq/theories/Extract/Extract$ID.v"
 mkdir -p "$OUT"
+# two checks that share a model (e.g. C12 uses the C06 binary) may run at the same time: one build at a time per model
+if [ -z "$BUILD_SH_LOCKED" ]; then BUILD_SH_LOCKED=1 exec flock "$OUT/.lock" env BUILD_SH_LOCKED=1 "$0" "$@"; fi
 # extra hand-written modules: first line of the driver may read  (* deps: a.ml b.ml *)
 DEPS=$(sed -n '1s/^(\* deps: \(.*\) \*)$/\1/p' "$ROOT/ocaml/drv_$ID.ml")
 DEPFILES=""; for d in $DEPS; do DEPFILES="$DEPFILES $ROOT/ocaml/$d"; done
